@@ -31,7 +31,8 @@ THEOREMS = ['foldStatus_append', 'foldStatus_three', 'foldStatus_two', 'foldStat
 TECHNIQUE = 'Lean 4 theorems (closed form of the status fold by induction, iff-characterisation, permutation invariance; case analysis of the audit() decision logic) + end-to-end correspondence through output() and main() over scripted peers'
 LEVEL_TEXT = ('The status fold is proved equal to "3 iff some failure, 2 iff no failure but a warning, 0 iff neither" for every note list, invariant under reordering, and the model report\'s status '
               'takes no output option; audit()\'s endings are stated outright as decision logic. The tie runs severity mixes through the real output() under all option sets and faulted handshakes '
-              'through the real main() over in-process scripted servers, comparing exit statuses and printed sections with the model.')
+              'through the real main() over in-process scripted servers, comparing exit statuses and printed sections with the model.'
+              ' Extension (Props/C02PolicyAudit, 62 theorems): the policy-audit path itself — status 0 iff passed, 3 iff failed, never 2, 1 without parsed lists; what the text and JSON forms show agrees with the verdict; -l / batch / verbose / the outdated-policy notice never change verdict or status; -M and -L; tied to real main() -P runs (files, built-ins, client policies, fleets with broken members).')
 LEVEL_NOTE = ('Trusted: Lean kernel, fakenet and the harness. "Finding" = a [fail]/[warn]-tagged algorithm note, as the property\'s observation points say: fail-coloured untagged (gen)/(sec) SSH-1 lines do not '
               'move the status (observation D23); an unknown algorithm is [warn] in text and "fail" in JSON notes, the exit status follows the text (observation D31). '
               'The handshake classification (which faults map to which ending) is tied by correspondence, not proved from the byte-level reader (see C09).')
